@@ -111,8 +111,10 @@ def run(rep, tier, seed):
 
     # placement
     precs = geom.run_geom_family(rep, "textpos", tier, ["TextPosIdentities"])
-    if not big and len(precs) > 1500:
-        precs = rnd.sample(precs, 1500)
+    if not big and len(precs) > 2400:
+        named = [x for x in precs if x["okind"] == "none"]
+        edge = [x for x in precs if x["okind"] != "none"]
+        precs = rnd.sample(named, min(len(named), 1500)) + rnd.sample(edge, min(len(edge), 900))
     pcases = []
     for j, c in enumerate(precs):
         b = c["box"]
@@ -124,7 +126,10 @@ def run(rep, tier, seed):
         if c["vert"]:
             cls.append("d-text-vertical")
         cls.append("d-fill-red")
-        extra = f' text="Label" text-loc="{c["loc"]}" class="{" ".join(cls)}"'
+        tloc = c["loc"]
+        if c["okind"] != "none":
+            tloc += ":" + (f'{c["eoff"]}%' if c["okind"] == "pct" else q(c["eoff"]))
+        extra = f' text="Label" text-loc="{tloc}" class="{" ".join(cls)}"'
         if c["off"]:
             extra += f' text-offset="{q(c["off"])}"'
         if c["dx"] or c["dy"]:
